@@ -14,7 +14,7 @@ import tempfile
 import time
 from pathlib import Path
 
-V = Path("/verif")
+V = Path(__file__).resolve().parent.parent  # the /verif tree this script belongs to (a vp-run snapshot uses its own checks)
 
 
 def sh(cmd, **kw):
@@ -46,9 +46,28 @@ def one(sid, checks, nproc):
     return sid, rec
 
 
+def apply(path):
+    """merge a results file written by an earlier (background) run into /verif/seeded/*/meta.json"""
+    R = json.loads(Path(path).read_text())
+    for sid, r in sorted(R["results"].items()):
+        mp = Path("/verif/seeded") / sid / "meta.json"
+        if not mp.exists():
+            continue
+        meta = json.loads(mp.read_text())
+        det = meta.get("detection", {})
+        det.update(r)
+        meta["detection"] = det
+        meta["detection_at"] = R["at"]
+        meta["caught_by"] = sorted(c for c, v in det.items() if isinstance(v, dict) and v.get("rc") == 1)
+        mp.write_text(json.dumps(meta, indent=1))
+        print(sid, meta["caught_by"])
+
+
 def main():
     only, extra, jobs = None, [], 3
     a = sys.argv[1:]
+    if a and a[0] == "--apply":
+        return apply(a[1])
     for i, x in enumerate(a):
         if x == "--only":
             only = a[i + 1].split(",")
@@ -61,20 +80,16 @@ def main():
         sids = [s for s in sids if s in only or s.split("_")[0] in only]
     nproc = max(2, (os.cpu_count() or 4) // jobs)
     head = sh("git -C /repo rev-parse --short HEAD").stdout.strip()
-    vhead = sh("git -C /verif rev-parse --short HEAD").stdout.strip()
+    vhead = sh(f"git -C {V} rev-parse --short HEAD").stdout.strip()
+    out = dict(at=dict(repo=head, verif=vhead, when=time.strftime("%Y-%m-%dT%H:%M:%S")), results={})
     with cf.ThreadPoolExecutor(jobs) as ex:
         futs = [ex.submit(one, s, [s.split("_")[0]] + [e for e in extra if e != s.split("_")[0]], nproc) for s in sids]
         for f in cf.as_completed(futs):
             sid, rec = f.result()
-            mp = V / "seeded" / sid / "meta.json"
-            meta = json.loads(mp.read_text())
-            det = meta.get("detection", {})
-            det.update(rec)
-            meta["detection"] = det
-            meta["detection_at"] = dict(repo=head, verif=vhead, when=time.strftime("%Y-%m-%dT%H:%M:%S"))
-            meta["caught_by"] = sorted(c for c, v in det.items() if isinstance(v, dict) and v.get("rc") == 1)
-            mp.write_text(json.dumps(meta, indent=1))
+            out["results"][sid] = rec
+            Path("recheck_results.json").write_text(json.dumps(out, indent=1))
             print(sid, {c: (v.get("rc"), (v.get("keys") or [""])[0][:90]) if isinstance(v, dict) else v for c, v in rec.items()}, flush=True)
+    print("results in", Path("recheck_results.json").resolve(), "- merge with: tools/recheck_seeds.py --apply <file>")
 
 
 main()
